@@ -218,6 +218,7 @@ func init() {
 			{"pass-order", "value-inserting passes precede no directive-interpreting pass", rulePassOrder},
 			{"closure-ret", "unknown variables stay", ruleClosureRet},
 			{"regex-repl-literal", "run-time strings never become an expanding regexp replacement ($-interpretation)", ruleRegexReplLiteral},
+			{"nested-untainted", "nested loop expansion happens before the item's scalar fields are substituted (data-flow)", ruleNestedUntainted},
 		},
 		Assumptions: append([]string{"RE2 leftmost-first semantics as documented by package regexp"}, commonAssumptions...),
 	}
